@@ -841,3 +841,93 @@ func vfContainsStr(l []string, s string) bool {
 // TestVerifC04Printer: see vfPrinterUnit (C11 harness): feedback written by the reference server's real printer for
 // awkward test names and messages makes the run fail and names the case.
 func TestVerifC04Printer(t *testing.T) { vfPrinterUnit(t, "C04Printer", true) }
+
+// TestVerifC04ClientFeedback: feedback that the reference client attaches to a result which otherwise matches
+// (its wire checks) makes the case fail - when the client of the run is the reference client, whatever the server
+// is: the server under test (server mode) or the reference server. Real batch function, C11 fakes.
+func TestVerifC04ClientFeedback(t *testing.T) {
+	en := verifkit.NewEnum(t, "C04ClientFeedback")
+	type row struct {
+		RefClient bool   `json:"referenceClient"`
+		RefServer bool   `json:"referenceServer"`
+		Lines     int    `json:"feedbackLines"`
+		Marking   string `json:"marking"`
+	}
+	const n = 3
+	for _, refClient := range []bool{true, false} {
+		for _, refServer := range []bool{false, true} {
+			for _, lines := range []int{1, 2} {
+				for _, marking := range []string{"none", "failing", "flaky"} {
+					r := row{refClient, refServer, lines, marking}
+					var testCases []*conformancev1.TestCase
+					expected := map[string]*conformancev1.ClientResponseResult{}
+					for i := 0; i < n; i++ {
+						exp := &conformancev1.ClientResponseResult{Payloads: []*conformancev1.ConformancePayload{{Data: []byte(fmt.Sprintf("payload-%d", i))}}}
+						testCases = append(testCases, &conformancev1.TestCase{Request: &conformancev1.ClientCompatRequest{TestName: vfC11Name(i)}, ExpectedResponse: exp})
+						expected[vfC11Name(i)] = exp
+					}
+					target := vfC11Name(1)
+					var fb []string
+					for l := 0; l < lines; l++ {
+						fb = append(fb, fmt.Sprintf("headers include incorrectly-encoded 'X-Bad-Bin' value (finding %d)", l+1))
+					}
+					resp, _ := proto.Marshal(&conformancev1.ServerCompatResponse{Host: "127.0.0.1", Port: 1})
+					var frame bytes.Buffer
+					var l [4]byte
+					binary.BigEndian.PutUint32(l[:], uint32(len(resp)))
+					frame.Write(l[:])
+					frame.Write(resp)
+					proc := &vfFakeProc{done: make(chan struct{})}
+					starter := processStarter(func(ctx context.Context, _ bool) (*process, error) {
+						return &process{processController: proc, stdin: &vfFakeStdin{}, stdout: bytes.NewReader(frame.Bytes()), stderr: strings.NewReader("")}, nil
+					})
+					var failing, flaky []string
+					switch marking {
+					case "failing":
+						failing = []string{target}
+					case "flaky":
+						flaky = []string{target}
+					}
+					results := newResults(n, vfTrieOrEmpty(failing), vfTrieOrEmpty(flaky), nil)
+					client := &vfFakeClient{c: vfC11Case{N: n, Delivery: "sync"}, expected: expected, feedback: map[string][]string{target: fb}}
+					done := make(chan struct{})
+					go func() {
+						defer close(done)
+						runTestCasesForServer(context.Background(), refClient, refServer, serverInstance{}, testCases, nil, nil, starter, &vfC11Printer{}, &vfC11Printer{}, results, client, nil, false)
+					}()
+					var viol error
+					select {
+					case <-done:
+					case <-time.After(30 * time.Second):
+						viol = verifkit.Violf("client-feedback-hang", "batch did not end: %+v", r)
+					}
+					if viol == nil {
+						printer := &vfC11PrinterLite{}
+						ok := results.report(printer)
+						out := strings.Join(printer.lines, "\n")
+						switch {
+						case !refClient:
+							// (a client under test is not a reference peer: what it puts into that field is not the runner's business)
+						case ok != (marking != "none"):
+							viol = verifkit.Violf(fmt.Sprintf("client-feedback-verdict:%v", ok), "report() = %v although the reference client attached feedback to the result of %q (reference server: %v, marking %s)\noutput:\n%s", ok, target, refServer, marking, out)
+						case marking == "none" && !strings.Contains(out, "FAILED: "+target+":"):
+							viol = verifkit.Violf("client-feedback-unnamed", "%q drew client feedback but no FAILED line names it (%+v)\noutput:\n%s", target, r, out)
+						default:
+							for l := 0; l < lines; l++ {
+								if !strings.Contains(out, fmt.Sprintf("(finding %d)", l+1)) {
+									viol = verifkit.Violf("client-feedback-line-lost", "feedback line %d of %d is not in the report (%+v)\noutput:\n%s", l+1, lines, r, out)
+								}
+							}
+						}
+					}
+					en.Rec.Observe(r, []string{fmt.Sprintf("reference-client:%v", refClient), fmt.Sprintf("reference-server:%v", refServer), "marking:" + marking}, refClient)
+					if viol != nil && en.Fail(r, viol) {
+						en.Done(true)
+						return
+					}
+				}
+			}
+		}
+	}
+	en.Done(true)
+}
